@@ -68,6 +68,10 @@ theorem userProps_fill (ups : UserProps) : Gen.UserProperties.properties ups = f
     by_cases h : kv.1.isEmpty = true <;> simp [h]
   simp only [this]
 
+/-- both error tests of `UserProp.UnmarshalBinary` read `err != nil` (the translator accepts the other spelling so that a
+flip is refuted here) -/
+theorem userProp_errTests : Gen.UserProp.errTests = true := by decide
+
 theorem complete : Gen.untranslatedWireVar = [] := by decide
 
 end Mq.Tie.WireVar
